@@ -218,7 +218,7 @@ pub fn braille_mathml(mathml: Element, nav_node_id: &str) -> Result<(String, usi
 //   they would need to be unshifted for the external world
 fn is_highlighted(ch: char) -> bool {
     let ch_as_u32 = ch as u32;
-    return (0x28C0..0x28FF).contains(&ch_as_u32);           // 0x28C0..0x28FF all have dots 7 & 8 on
+    return (0x28C0..=0x28FF).contains(&ch_as_u32);           // 0x28C0..=0x28FF all have dots 7 & 8 on (0x28FF is the highlighted '⠿')
 }
 
 fn highlight(ch: char) -> char {
@@ -227,7 +227,7 @@ fn highlight(ch: char) -> char {
 
 fn unhighlight(ch: char) -> char {
     let ch_as_u32 = ch as u32;
-    if (0x28C0..0x28FF).contains(&ch_as_u32) {              // 0x28C0..0x28FF all have dots 7 & 8 on
+    if (0x28C0..=0x28FF).contains(&ch_as_u32) {              // 0x28C0..=0x28FF all have dots 7 & 8 on
         return unsafe{char::from_u32_unchecked(ch_as_u32 & 0x283F)};
     } else {
         return ch;
